@@ -617,6 +617,17 @@ theorem C13_croptobbox_border_spec (shape : List Nat) (box : List Int) (b : Int)
     (cropTo shape (bboxBorder box b)).2 = cropSpec shape box b :=
   cropTo_eq_spec shape box b hb hlen hnn
 
+/-- **C13 (croptobbox end to end).** For every image of rank ≥ 1 that fills its shape and every `border = b ≥ 0`: the
+pixels `croptobbox(img, border=b)` shows — computed by the models of `bbox` (generic loop; the C-contiguous 2-D fast path
+is equal by `C13_bbox_fast_eq_generic`), of the border arithmetic, and of Python slicing — are exactly the pixels within `b`
+of the returned box on every axis (clipped to the image), and **every non-zero pixel of the image is among them**. (For an
+all-zero image the box is `[0,0,…]` and the crop is the leading `b × … × b` corner: what the code does.) -/
+theorem C13_croptobbox_contains_nonzero (shape : List Nat) (data : List Int) (hlen : data.length = shapeSize shape)
+    (hnd : 0 < shape.length) (b : Int) (hb : 0 ≤ b) :
+    (cropTo shape (bboxBorder (bboxGeneric shape data) b)).2 = cropSpec shape (bboxGeneric shape data) b ∧
+    ∀ i, i < data.length → data.getD i 0 ≠ 0 → i ∈ cropSpec shape (bboxGeneric shape data) b :=
+  croptobbox_contains shape data hlen hnd b hb
+
 /-! non-vacuity of the round-4 wrapper theorems: concrete evaluations (a 3 × 4 image whose box `[1,2,1,3]` is grown by 1 and
     clipped; negative border through Python's negative-index rule; labels beyond 2^32; a `conditions` table shorter than the
     label range; equal-size maps of different shapes) -/
